@@ -351,6 +351,80 @@ fn run<F: MathFunction>(case: &Case, cx: &mut Cx) -> CheckResult {
             other => fail!("missing-var-accepted", "bulk eval: {:?}", other.map(|o| o.len())),
         }
         cx.ev.count("missing_and_mismatch_cases");
+        // ---- a history on ONE bulk evaluator: per-sample variable arrays
+        // whose first and last elements coincide (the first sample repeated at
+        // the end), then fixed values equal to exactly those elements.  The
+        // evaluator's scratch columns still hold the per-sample data; the
+        // fixed values must replace all of it.
+        if case.samples.len() >= 2 {
+            let mut ss: Vec<&Vec<i8>> = case.samples.iter().collect();
+            ss.push(&case.samples[0]);
+            let xs2: Vec<f32> = ss.iter().map(|s| xyz(s).0).collect();
+            let ys2: Vec<f32> = ss.iter().map(|s| xyz(s).1).collect();
+            let zs2: Vec<f32> = ss.iter().map(|s| xyz(s).2).collect();
+            let mut arrays2: ShapeVars<Vec<f32>> = ShapeVars::new();
+            for j in &order {
+                arrays2.insert(
+                    free[*j].index().unwrap(),
+                    ss.iter().map(|s| value_of(s, 3 + *j)).collect(),
+                );
+            }
+            let out = match &mat {
+                None => fe.eval_with_var_arrays(&ft, &xs2, &ys2, &zs2, &arrays2),
+                Some(m) => fe.eval_with_transform_and_var_arrays(&ft, &xs2, &ys2, &zs2, m, &arrays2),
+            }
+            .map_err(|e| Fail::new("bulk-eval-error", format!("{e:?}")))?
+            .to_vec();
+            for (i, s) in ss.iter().enumerate() {
+                let (x, y, z) = xyz(s);
+                ensure!(
+                    out[i] == expect(x, y, z, s),
+                    "bulk-array-binding",
+                    "bulk eval with variable arrays (first sample repeated last), sample {i}: {} expected {}",
+                    out[i],
+                    expect(x, y, z, s)
+                );
+            }
+            let out = match &mat {
+                None => fe.eval_with_vars(&ft, &xs2, &ys2, &zs2, &sv),
+                Some(m) => fe.eval_with_transform_and_vars(&ft, &xs2, &ys2, &zs2, m, &sv),
+            }
+            .map_err(|e| Fail::new("bulk-eval-error", format!("{e:?}")))?;
+            for (i, s) in ss.iter().enumerate() {
+                let (x, y, z) = xyz(s);
+                let want = expect(x, y, z, sample0);
+                cx.ev.count("bulk_fixed_after_arrays_comparisons");
+                ensure!(
+                    out[i] == want,
+                    "bulk-binding",
+                    "fixed variable values after per-sample arrays on the same evaluator, sample {i}: {} expected {want}",
+                    out[i]
+                );
+            }
+            // the same history on the gradient evaluator (values only)
+            let g = |v: &Vec<f32>| -> Vec<Grad> { v.iter().map(|x| Grad::from(*x)).collect() };
+            let (gx, gy, gz) = (g(&xs2), g(&ys2), g(&zs2));
+            let _ = match &mat {
+                None => ge.eval_with_var_arrays(&gt, &gx, &gy, &gz, &arrays2),
+                Some(m) => ge.eval_with_transform_and_var_arrays(&gt, &gx, &gy, &gz, m, &arrays2),
+            }
+            .map_err(|e| Fail::new("grad-eval-error", format!("{e:?}")))?;
+            let out = match &mat {
+                None => ge.eval_with_vars(&gt, &gx, &gy, &gz, &sv),
+                Some(m) => ge.eval_with_transform_and_vars(&gt, &gx, &gy, &gz, m, &sv),
+            }
+            .map_err(|e| Fail::new("grad-eval-error", format!("{e:?}")))?;
+            for (i, s) in ss.iter().enumerate() {
+                let (x, y, z) = xyz(s);
+                let want = expect(x, y, z, sample0);
+                ensure!(
+                    out[i].v == want,
+                    "grad-binding",
+                    "gradient evaluator, fixed variable values after per-sample arrays, sample {i}: {} expected {want}",
+                    out[i].v
+                );
+            }
+        }
     }
     // ---- interval: the box around each sample must contain the value
     // (not demanded of functions with atan2: C03 excludes atan2(0, 0))
